@@ -64,6 +64,7 @@ package keeper
 //@ define inStepColl(ctx, m, pool, p, s, d) := ite(p == pool.AmmPoolId, perpCollOf(pool, s, d), storedColl(ctx, p, s, d)) - storedColl(ctx, p, s, d) == objColl(m, p, s, d) - rowColl(ctx, unbech32(m.Address), m.Id, p, s, d)
 
 //@ func (Keeper).SettleFunding
+//@ callers-assumed C09: the liquidation, stop-loss and take-profit flows that also call this are not under a stored-state contract yet (DESIGN A.5); the in-step precondition is proved at the call sites in ClosePosition only
 //@ forall p Int
 //@ forall s Int
 //@ forall d Str
@@ -155,6 +156,7 @@ package keeper
 //@ frame-only
 
 //@ func (Keeper).EstimateAndRepay
+//@ callers-assumed C09: the liquidation, stop-loss and take-profit flows that also call this are not under a stored-state contract yet (DESIGN A.5); the in-step precondition is proved at the call sites in ClosePosition only
 //@ forall p Int
 //@ forall s Int
 //@ forall d Str
@@ -272,6 +274,7 @@ package keeper
 // was, for every pool, side and asset (stated for a position that is kept, or removed with nothing left:
 // see the finding on Repay).
 //@ func (Keeper).ClosePosition
+//@ callers-assumed C09: the clause asks nothing of the caller (the function reads the position and the pool itself); what Keeper.Close and the message server do after it is not under contract
 //@ decabstract
 //@ forall p Int
 //@ forall s Int
